@@ -230,10 +230,13 @@ func c05GrpcSession(seed int64, deadline time.Duration) *c05GrpcResult {
 		return res
 	}
 
+	// The fault closure above reads profile concurrently: the label of the
+	// session is a separate variable.
+	label := profile
 	if nEvents > 0 {
-		profile += "+events"
+		label += "+events"
 	}
-	res.profile = profile
+	res.profile = label
 	nUnary := 6 + rng.Intn(20)
 	nStream := 5 + rng.Intn(30)
 	mkReq := func(r *rand.Rand, tag byte, i int) []byte {
@@ -380,7 +383,7 @@ func c05GrpcSession(seed int64, deadline time.Duration) *c05GrpcResult {
 	res.rpcsOK, res.rpcsFailed, res.streamMsgs, res.faults = okCalls.Load(), failedCalls.Load(), streamMsgs.Load(), faults.Load()
 	res.progress = fmt.Sprintf("unary %d/%d answered, stream %d/%d answered, %d failed attempts, last failure %v ago, last relay op %v ago, elapsed %v",
 		okCalls.Load(), nUnary, streamMsgs.Load(), nStream, failedCalls.Load(), res.lastFailureAgo.Round(time.Millisecond), res.relayQuiet.Round(time.Millisecond), el.Round(time.Millisecond))
-	res.rep = map[string]any{"kind": "grpc", "seed": fmt.Sprint(seed), "profile": profile, "events": events, "fault_until": faultUntil.String(), "unary_calls": nUnary, "stream_messages": nStream, "progress": res.progress}
+	res.rep = map[string]any{"kind": "grpc", "seed": fmt.Sprint(seed), "profile": label, "events": events, "fault_until": faultUntil.String(), "unary_calls": nUnary, "stream_messages": nStream, "progress": res.progress}
 
 	cancel()
 	_ = cc.Close()
